@@ -13,19 +13,7 @@ structure St where
   inCase : Bool
   hashes : List Hash
 
-def insertBy {α : Type} (lt : α → α → Bool) (x : α) : List α → List α
-  | [] => [x]
-  | y :: t => if lt y x then y :: insertBy lt x t else x :: y :: t
-
-/-- stable insertion sort -/
-def sortBy {α : Type} (lt : α → α → Bool) (l : List α) : List α := l.foldr (insertBy lt) []
-
 def lex2 (a b : Nat × Nat) : Bool := a.1 < b.1 || (a.1 = b.1 && a.2 < b.2)
-def lexL : List Nat → List Nat → Bool
-  | [], [] => false
-  | [], _ :: _ => true
-  | _ :: _, [] => false
-  | a :: s, b :: t => a < b || (a = b && lexL s t)
 
 def indexOf (h : Hash) : List Hash → Nat → Option Nat
   | [], _ => none
